@@ -77,12 +77,13 @@ impl Prop for C17Prop {
             large_pct: 30,
             n_small: (2, 12),
             n_large: (21, 36),
-            regimes: vec![WeightRegime::AllNan, WeightRegime::AllNan, WeightRegime::SmallInt, WeightRegime::Dyadic, WeightRegime::Nasty],
+            regimes: vec![WeightRegime::AllNan, WeightRegime::AllNan, WeightRegime::SmallInt, WeightRegime::Dyadic, WeightRegime::Nasty, WeightRegime::FineDyadic],
             kinds: AlgoGen::all_kinds(),
-            shapes: Some(vec![Shape::Path, Shape::Cycle, Shape::Cycle, Shape::Union, Shape::Union, Shape::Bipartite, Shape::Grid, Shape::Cliques, Shape::Star, Shape::Gnp]),
+            shapes: Some(vec![Shape::Path, Shape::Cycle, Shape::Cycle, Shape::Union, Shape::Union, Shape::Bipartite, Shape::Grid, Shape::Cliques, Shape::Star, Shape::Gnp, Shape::GradedHub]),
             lifecycle_pct: 15,
             keyings: 1,
             boundary_per_mille: 0,
+            huge_one_in: 600,
         }
         .gen("C17", seed, idx);
         let mut rng = Rng::new(seed, "c17.args");
@@ -285,7 +286,7 @@ impl Prop for C17Prop {
         out
     }
     fn rule(&self) -> String {
-        "tie-rich graphs (paths, cycles, unions of equal components, complete-ish bipartite, grids, cliques, stars, G(n,p); all 8 kinds; n <= 36) and fast_gnp_random_graph(n <= 300, p, directed/undirected, Some(seed)); the same call is made under 8 (quick) / 24 (thorough) environments = hash keyings x simulated pool sizes 1-16, and twice in one thread; Louvain results compared as lists of sets of sets, generator results as (node list, sorted edge list), non-randomised algorithms (betweenness, closeness, clustering, eigenvector, all_pairs distances, components, degrees, BFS as first element + set): discrete results exactly, floats at 1e-9. distinct_nontrivial = distinct (graph, arguments) compared across >= 2 environments".into()
+        "tie-rich graphs (paths, cycles, unions of equal components, complete-ish bipartite, grids, cliques, stars, G(n,p); all 8 kinds; n <= 36) and fast_gnp_random_graph(n <= 300, p, directed/undirected, Some(seed)); the same call is made under 8 (quick) / 24 (thorough) environments = hash keyings x simulated pool sizes 1-16, and twice in one thread; Louvain results compared as lists of sets of sets, generator results as (node list, sorted edge list), non-randomised algorithms (betweenness, closeness, clustering, eigenvector, all_pairs distances, components, degrees, BFS as first element + set): discrete results exactly, floats at 1e-9. distinct_nontrivial = distinct (graph, arguments) compared across >= 2 environments; one case in 600 is a dense graph (1-3 blocks, 60-300 nodes) with 2 100 - 12 500 stored edges under a pool of 2-16 workers (strategy thresholds); weights also 1 + k 2^-j; shape 'hub joined to 3-5 identical parts by spokes graded in steps of 2^-41..2^-35 or one ulp' (candidates nearly but not exactly tied)".into()
     }
     fn assumptions(&self) -> Vec<String> {
         vec!["fresh processes are covered by the determinism proof (tools/determinism.sh): run fingerprints, which include every output, are compared across separate processes and worker counts".into(), "seed = None paths are out of scope (OS entropy through a raw syscall the simulator does not own)".into()]
